@@ -7,6 +7,7 @@ package codec
 import (
 	"bytes"
 	"encoding/binary"
+	"errors"
 	"fmt"
 	"io"
 	"math"
@@ -195,6 +196,31 @@ func TestC08ReaderSegmentation(t *testing.T) {
 					}
 				}
 			}
+		}
+		// Errors too: a stream that ends early fails the same way however its bytes arrive.
+		for i := 0; i < 6 && n > 1; i++ {
+			k := rapid.IntRange(0, n-1).Draw(rt, "truncate-at")
+			if i == 0 {
+				k = n - 1
+			}
+			prefix := stream[:k]
+			_, want := decodeSegmented(prefix, nil, compressed, rev, cols, auto)
+			if want == nil {
+				rt.Fatalf("harness: prefix of %d of %d bytes decodes", k, n)
+			}
+			var segsList [][]int
+			segsList = append(segsList, ones(k))
+			for j := 0; j < 8 && k > 1; j++ {
+				segsList = append(segsList, []int{rapid.IntRange(1, k-1).Draw(rt, "split")})
+			}
+			for _, segs := range segsList {
+				_, got := decodeSegmented(prefix, segs, compressed, rev, cols, auto)
+				if got == nil || got.Error() != want.Error() || errors.Is(got, io.EOF) != errors.Is(want, io.EOF) || errors.Is(got, io.ErrUnexpectedEOF) != errors.Is(want, io.ErrUnexpectedEOF) {
+					rt.Fatalf("stream cut after %d of %d bytes (compressed=%v auto=%v, types %v): delivered at once the error is %q, delivered as %v it is %q", k, n, compressed, auto, typeNames(cols), want, short(segs), got)
+				}
+			}
+			st.Evals(int64(len(segsList)))
+			st.Label("truncated-stream-errors")
 		}
 		// Exhaustive over all 2^(n-1) compositions for short streams.
 		if n <= 13 {
